@@ -65,6 +65,11 @@ type c04Scenario struct {
 	Val     int    `json:"val"`
 	// target error
 	FailAt int `json:"fail_at"` // 1-based request sequence number answered with -ERR (0 = none)
+	// target-exec-error: the ExecAt-th command the target EXECUTES (1-based; queued commands count when their
+	// EXEC runs) answers -ERR, so that inside MULTI/EXEC the error is an element of a successful EXEC reply
+	ExecAt int `json:"exec_at,omitempty"`
+	// target-drop: every connection is dropped just before the target would process its DropAt-th request (0-based)
+	DropAt int `json:"drop_at,omitempty"`
 	// cancellation
 	CancelAt int `json:"cancel_at"` // the replay context is cancelled just before the target processes its CancelAt-th request (0-based; -1 = never)
 	Bound    int `json:"bound"`
@@ -419,8 +424,8 @@ func TestVerifC04Probe(t *testing.T) {
 }
 
 type c04ProbeOut struct {
-	class   []byte            // per variant: 0 = not this shard's, e/k/b/B, 'X' = child died, 'S' = child made no progress
-	stderr  map[int]string    // for X / S
+	class   []byte         // per variant: 0 = not this shard's, e/k/b/B, 'X' = child died, 'S' = child made no progress
+	stderr  map[int]string // for X / S
 	spawned int
 }
 
@@ -543,23 +548,7 @@ func rdbTailStr(s string, n int) string {
 
 // c04CpWritten reports whether the target executed a checkpoint write that carries
 // the snapshot's offset as resume position.
-func c04CpWritten(log []*redisd.Req) bool {
-	want := strconv.FormatInt(rdbSnapOffset, 10)
-	for _, r := range log {
-		if !r.Executed || r.Failed || r.Name() != "hset" || len(r.Argv) < 4 {
-			continue
-		}
-		if !strings.HasPrefix(string(r.Argv[1]), "redis-gunyu-checkpoint") {
-			continue
-		}
-		for i := 2; i+1 < len(r.Argv); i += 2 {
-			if string(r.Argv[i]) == rdbRunID+"_offset" && string(r.Argv[i+1]) == want {
-				return true
-			}
-		}
-	}
-	return false
-}
+func c04CpWritten(log []*redisd.Req) bool { return rdbCpWritten(log) }
 
 func c04Exec(t *testing.T, scn c04Scenario, ch *mc.Chooser) mc.Result {
 	res, _, _ := c04ExecPlan(t, scn, ch)
@@ -630,6 +619,23 @@ func c04ExecPlan(t *testing.T, scn c04Scenario, ch *mc.Chooser) (res mc.Result, 
 		case "target-error":
 			hooks.Prepare = func(srv *redisd.Server) {
 				srv.PlanRef().FailAt = map[int]string{scn.FailAt: "ERR injected target error"}
+			}
+		case "target-exec-error":
+			hooks.Prepare = func(srv *redisd.Server) {
+				n := 0
+				srv.Extra = func(s *redisd.Server, cs *redisd.ConnState, argv [][]byte) []byte {
+					n++
+					if n == scn.ExecAt {
+						return []byte("-ERR injected error at execution time\r\n")
+					}
+					return nil
+				}
+			}
+		case "target-drop":
+			hooks.BeforeReq = func(srv *redisd.Server, idx int, argv [][]byte) {
+				if idx == scn.DropAt {
+					srv.KillConns()
+				}
 			}
 		case "cancel-at-point":
 			hooks.OnStart = func(c context.CancelFunc) { cancelAtPoint = c }
@@ -990,6 +996,24 @@ func runC04(t *testing.T, rep *mc.Reporter) {
 				}
 				scn := scn0
 				scn.Mode, scn.FailAt = "target-error", k
+				mc.RunScenario(rep, scn, 0, budget, func(ch *mc.Chooser) mc.Result { return c04Exec(t, scn, ch) })
+			}
+			// the k-th executed command fails when it runs (inside EXEC for bidirectional units); the connections
+			// are lost before the k-th request
+			for k := 1; k <= requests; k++ {
+				if !mine() {
+					continue
+				}
+				scn := scn0
+				scn.Mode, scn.ExecAt = "target-exec-error", k
+				mc.RunScenario(rep, scn, 0, budget, func(ch *mc.Chooser) mc.Result { return c04Exec(t, scn, ch) })
+			}
+			for k := 0; k < requests; k++ {
+				if !mine() {
+					continue
+				}
+				scn := scn0
+				scn.Mode, scn.DropAt = "target-drop", k
 				mc.RunScenario(rep, scn, 0, budget, func(ch *mc.Chooser) mc.Result { return c04Exec(t, scn, ch) })
 			}
 			for k := 0; k < requests; k++ {
